@@ -306,6 +306,7 @@ def _store_array(
         # treat a region as an offset within the target store
         shape = target.shape
         chunks = _target_write_chunks(target) or target.chunks
+        region = _normalize_region(region, shape)
         for i, (sl, cs) in enumerate(zip(region, chunks)):
             if (sl.start is not None and sl.start % cs != 0) or (
                 sl.stop is not None and sl.stop % cs != 0 and sl.stop != shape[i]
@@ -362,6 +363,23 @@ def _store_array(
 
         assert isinstance(out, Array)  # single output
         return out
+
+
+def _normalize_region(region, shape):
+    """Express a region as slices with non-negative start and stop and unit step."""
+    if len(region) != len(shape):
+        raise ValueError(
+            f"Region {region} must have one slice for each of the target's {len(shape)} dimensions"
+        )
+    normalized = []
+    for sl, s in zip(region, shape):
+        if not isinstance(sl, slice):
+            raise ValueError(f"Region {region} must be a tuple of slices")
+        start, stop, step = sl.indices(s)
+        if step != 1:
+            raise ValueError(f"Region {region} must only contain slices with step 1")
+        normalized.append(slice(start, max(start, stop)))
+    return tuple(normalized)
 
 
 def _same_chunks(source, target) -> bool:
